@@ -99,8 +99,23 @@ def opt_is_some(o):
     return zs(o.discr == 1)
 
 
+def _identity_cell(v):
+    """The heap cell an Arc / a reference to an Arc's payload denotes (None if not applicable)."""
+    x = v
+    while isinstance(x, RefV) and isinstance(x.load(), (RefV, ArcV)):
+        x = x.load()
+    if isinstance(x, ArcV):
+        return x.cell
+    if isinstance(x, RefV) and isinstance(x.container, Cell):
+        return x.container
+    return None
+
+
 def value_eq(a, b):
     """Structural equality of two values as a z3 Bool."""
+    ca, cb = _identity_cell(a), _identity_cell(b)
+    if ca is not None and cb is not None and (isinstance(deref_all(a), ArcV) or isinstance(deref_all(b), ArcV)):
+        return z3.BoolVal(ca is cb)         # Arc<T> keys with pointer identity (Actor's Eq/Hash are by address)
     a, b = deref_all(a), deref_all(b)
     if isinstance(a, Opaque) and isinstance(b, Opaque):
         return z3.BoolVal(a.name == b.name)
@@ -120,6 +135,49 @@ def value_eq(a, b):
     raise Inconclusive(f'structural equality of {a!r} and {b!r}')
 
 
+def aset_method(engine, st, last, args, dest_ty):
+    """Hash set with symbolic membership."""
+    sv = deref_all(args[0])
+
+    def index_of(key):
+        for i, k in enumerate(sv.keys):
+            if engine.split_bool(st, zs(value_eq(k, key))):
+                return i
+        return None
+    if last == 'len':
+        return IV(zs(z3.Sum([z3.If(p, 1, 0) for p in sv.present])) if sv.present else 0)
+    if last == 'is_empty':
+        return BV(zs(z3.Not(z3.Or(*sv.present))) if sv.present else True)
+    if last == 'contains':
+        i = index_of(args[1])
+        return BV(sv.present[i] if i is not None else False)
+    if last == 'remove':
+        i = index_of(args[1])
+        if i is None:
+            return BV(False)
+        old = sv.present[i]
+        sv.present[i] = z3.BoolVal(False)
+        return BV(old)
+    if last == 'insert':
+        key = args[1]
+        i = index_of(key)
+        if i is None:
+            sv.keys.append(key)
+            sv.present.append(z3.BoolVal(True))
+            return BV(True)
+        old = sv.present[i]
+        sv.present[i] = z3.BoolVal(True)
+        return BV(zs(z3.Not(old)))
+    if last in ('iter', 'into_iter'):
+        # iteration needs a concrete element list: split the path on every membership flag
+        items = []
+        for k, p in zip(sv.keys, sv.present):
+            if engine.split_bool(st, zs(p)):
+                items.append(RefV(Cell(k), 0) if isinstance(args[0], RefV) else k)
+        return IterV(items)
+    raise Inconclusive(f'hash set method {last}')
+
+
 def amap_method(engine, st, last, args, dest_ty):
     from symex import AMapV
     mp = deref_all(args[0])
@@ -136,9 +194,9 @@ def amap_method(engine, st, last, args, dest_ty):
         return None
     if last == 'contains_key' or last == 'contains':
         return BV(locate(args[1]) is not None)
-    if last == 'get':
+    if last in ('get', 'get_mut'):
         i = locate(args[1])
-        return mk_option(True, RefV(mp, i), ty=dest_ty) if i is not None else mk_option(False, ty=dest_ty)
+        return mk_option(True, RefV(mp, i, last == 'get_mut'), ty=dest_ty) if i is not None else mk_option(False, ty=dest_ty)
     if last == 'insert':
         key = copy_value(deref_all(args[1])) if isinstance(args[1], RefV) else args[1]
         i = locate(key)
@@ -152,6 +210,12 @@ def amap_method(engine, st, last, args, dest_ty):
         old = mp.entries[i][1]
         mp.entries[i] = (mp.entries[i][0], args[2])
         return mk_option(True, old, ty=dest_ty)
+    if last == 'remove':
+        i = locate(args[1])
+        if i is None:
+            return BV(False) if mp.is_set else mk_option(False, ty=dest_ty)
+        _, old = mp.entries.pop(i)
+        return BV(True) if mp.is_set else mk_option(True, old, ty=dest_ty)
     if last == 'into_iter' and not isinstance(args[0], RefV):
         return IterV([k for k, _ in mp.entries] if mp.is_set else [Agg('tuple', [k, v], '') for k, v in mp.entries])
     if last in ('iter', 'into_iter'):
@@ -435,6 +499,13 @@ def std_trait(engine, st, ty, tyb, tb, method, args, dest_ty, trait=None):
             return StateV(dict(inner.table))
         if isinstance(inner, VecV):
             return VecV([copy_value(x) for x in inner.items], inner.ty)
+        if type(inner).__name__ == 'ASetV':
+            from symex import ASetV
+            return ASetV(list(inner.keys), list(inner.present))
+        if type(inner).__name__ == 'AMapV':
+            from symex import AMapV, ASetV
+            clone1 = lambda v: ASetV(list(v.keys), list(v.present)) if type(v).__name__ == 'ASetV' else copy_value(v)
+            return AMapV([(k, clone1(v)) for k, v in inner.entries], inner.is_set)
         return copy_value(inner)
     if tb == 'Clone' and method == 'clone_from' and isinstance(args[0], RefV):
         args[0].store(copy_value(unref(args[1])))
@@ -598,6 +669,8 @@ def std_trait(engine, st, ty, tyb, tb, method, args, dest_ty, trait=None):
 def iterator_method(engine, st, method, args, dest_ty):
     if method in ('into_iter', 'iter') and type(deref_all(args[0])).__name__ == 'AMapV':
         return amap_method(engine, st, 'into_iter' if method == 'into_iter' else 'iter', args, dest_ty)
+    if method in ('into_iter', 'iter') and type(deref_all(args[0])).__name__ == 'ASetV':
+        return aset_method(engine, st, 'iter', args, dest_ty)
     if method == 'into_iter':
         v = args[0]
         if isinstance(v, VecV):
@@ -669,6 +742,14 @@ def iterator_method(engine, st, method, args, dest_ty):
     if method == 'collect' and dest_ty and base_type(dest_ty) == 'HashMap' and getattr(engine.env, 'symbolic_maps', False):
         from symex import AMapV
         return AMapV([(deref_all(t.fields[0]) if isinstance(t.fields[0], RefV) else t.fields[0], t.fields[1]) for t in it.items])
+    if method == 'collect' and dest_ty and base_type(dest_ty) == 'HashSet' and getattr(engine.env, 'symbolic_maps', False):
+        from symex import AMapV
+        keys = []
+        for x in it.items:
+            k = deref_all(x) if isinstance(x, RefV) else x
+            if not any(engine.split_bool(st, zs(value_eq(k, o))) for o in keys):
+                keys.append(k)
+        return AMapV([(k, UnitV()) for k in keys], is_set=True)
     if method == 'collect':
         tb_ = base_type(dest_ty) if dest_ty else 'Vec'
         if tb_ not in ('Vec', 'TinyVec', ''):
@@ -884,6 +965,8 @@ def std_path(engine, st, name, args, dest_ty):
         return seq_method(engine, st, last, args, dest_ty)
     if ('HashMap' in name or 'HashSet' in name) and args and type(deref_all(args[0])).__name__ == 'AMapV':
         return amap_method(engine, st, last, args, dest_ty)
+    if 'HashSet' in name and args and type(deref_all(args[0])).__name__ == 'ASetV':
+        return aset_method(engine, st, last, args, dest_ty)
     if 'HashMap' in name and last == 'get':
         from symex import MapV
         mp = deref_all(args[0])
